@@ -18,6 +18,8 @@
     stage:<p> addpath:<p> unstage:<p> rmc:<p> addall clearidx switch:<name>                        -> ok|err:<E>
     e_create:<p>:<wfile> e_modify:<p>:<wfile> e_chmod:<p>:<wfile> e_delete:<p> e_rmtree:<p> e_mkdir:<p>
                                            the named working-directory edits (Edit) of the model   -> ok
+    reset:<name> forceco:<name>            porcelain.reset(hard) / checkout(force=True) to the tree      -> ok|err:<E>
+    idx:<p>=<k><cid>/<ctime>/<mtime>/<size>,…  head:<name>   what C git made of the index / of HEAD     -> ok
     status                                 -> S:a=<p,…>|d=…|m=…|u=…|t=…   or err:<E>
     statusn                                -> the same with untracked_files="normal" (directories end in 2f)
     index                                  -> I:<p>=<k><cid>/<ctime>/<mtime>/<size>,…
@@ -185,6 +187,34 @@ def step (st : St) (tok : String) : St × String :=
     | some t =>
       let r := switchTo cur st.w t st.obs
       ({ st with w := r.world }, match r.err with | none => "ok" | some e => s!"err:{e}")
+    | none => (st, "bad-arg")
+  | ["reset", name] =>
+    match st.trees.lookup name with
+    | some t =>
+      let r := resetHard cur st.w t st.obs
+      ({ st with w := r.world }, match r.err with | none => "ok" | some e => s!"err:{e}")
+    | none => (st, "bad-arg")
+  | ["forceco", name] =>
+    match st.trees.lookup name with
+    | some t =>
+      let r := switchForce cur st.w t st.obs
+      ({ st with w := r.world }, match r.err with | none => "ok" | some e => s!"err:{e}")
+    | none => (st, "bad-arg")
+  | ["idx", s] =>                                              -- the index now is … (written by C git)
+    match (parseList s).mapM (fun item =>
+        match item.splitOn "=" with
+        | [p, v] =>
+          match v.splitOn "/" with
+          | [e, c, m, z] => do
+            let en ← entry? e
+            some ((← bytes? p), (⟨en.kind, en.cid, ⟨← nat? c, ← nat? m, ← nat? z⟩⟩ : IEntry))
+          | _ => none
+        | _ => none) with
+    | some idx => ({ st with w := { st.w with index := idx } }, "ok")
+    | none => (st, "bad-arg")
+  | ["head", name] =>                                          -- HEAD now is … (moved by C git)
+    match st.trees.lookup name with
+    | some t => ({ st with w := { st.w with head := t } }, "ok")
     | none => (st, "bad-arg")
   | ["status"] => (st, showStatus (status cur st.w))
   | ["statusn"] => (st, showStatus (statusNormal cur st.w))
